@@ -10,7 +10,9 @@ rm -rf $D; mkdir -p $D
 rsync -a --exclude /target --exclude /.git /repo/ $D/repo/
 (cd $D/repo && patch -p1 -s < $V/seeded/$S/patch.diff) || { echo "patch does not apply"; exit 9; }
 cd $V
-VERIF_REPO=$D/repo VERIF_SCRATCH=$D/scratch VERIF_WORK=$D/work VERIF_EVIDENCE=$D/evidence VERIF_REPLAY_OUT=$D/replay ./check $P --tier $T
+# trials share /verif/.cache (build directories) with each other and with ordinary runs: one trial per property at a time
+mkdir -p /var/tmp/vp
+VERIF_REPO=$D/repo VERIF_SCRATCH=$D/scratch VERIF_WORK=$D/work VERIF_EVIDENCE=$D/evidence VERIF_REPLAY_OUT=$D/replay flock /var/tmp/vp/trial.$P.lock ./check $P --tier $T
 rc=$?
 rm -rf $D/repo $D/scratch
 echo "exit=$rc"
